@@ -16,6 +16,7 @@ STATES_INT = [dict(A=2, B=3, C=1), dict(A=0, B=1, C=4), dict(A=5, B=0, C=2), dic
 def write_model(m, stochastic):
     fd, path = tempfile.mkstemp(suffix='.xml', prefix='c14_', dir='/dev/shm' if os.path.isdir('/dev/shm') else None)
     os.close(fd)
+    np.random.seed(20260927)       # every document of the run carries the same generated model id
     m.write_sbml_model(path, stochastic_model=stochastic)
     return path
 
